@@ -27,6 +27,7 @@ macro_rules! up_row_lemmas { ($d:expr, $up:expr) => {{
     vlemma_eq("|dn|^2=1", dn.magnitude2(), R(1.0));
     vlemma_eq("|side|^2=1", side.magnitude2(), R(1.0));
     vlemma_eq("dn.side=0", dn.dot(side), R(0.0));
+    vlemma_eq("lagrange: |dn x side|^2 = |dn|^2 |side|^2 - (dn.side)^2", u0.magnitude2(), dn.magnitude2() * side.magnitude2() - dn.dot(side) * dn.dot(side));
     vlemma_eq("|dn x side|^2=1", u0.magnitude2(), R(1.0));
     vlemma_eq("|dn x side|=1", u0.magnitude(), R(1.0));
 }}}
